@@ -11,6 +11,10 @@ CLAIMED = {
          "Machine-checked proof (Coq 8.16): for EVERY byte string and either body ending, the modelled client loop (doHttpCall) and server RecvMsg request at most max_size bytes and never a negative size, deliver only messages that literally follow their own length prefix in the input, and round-trip every encodable stream; a reply cut at ANY offset before the end of the trailer frame yields an error and an intact prefix. The two size guards and the limit are regenerated from the source on every run (removing a guard breaks a named theorem). The model is tied to the code by feeding hostile prefixes, every truncation offset of generated streams, prefix mutations and random bytes to the real httpgrpc client (replaying RoundTripper) and server (crafted request bodies), comparing delivered frames and the final error class, with TotalAlloc observed.",
          "Trusted: Coq kernel; go2coq translation of the guards; models of binary.Read/io.ReadAtLeast EOF classification (validated by the runs); protobuf decoding of the trailer is an oracle input (real codec); actual resident memory is only observed (TotalAlloc).",
          "7/C07"),
+ "C09": ("Coq theorems over the timeout codec with unit switch, multiplication/saturation, division and clamp regenerated from server.go/client.go + bracketed differential runs",
+         "Machine-checked proof (Coq 8.16): for every remaining duration in int64 the header the client writes decodes on the server to the whole milliseconds of it (never later than the caller's deadline, earlier by less than 1 ms; as deadlines: within transit), no deadline without a caller deadline, every non-negative int64 value with each of the six wire units gives min(v*unit, MaxInt64) (saturation, proved against the generated multiplication with its int64 wrap), the code's unit switch equals the wire specification's table, and no header string makes the server index out of range. Tied to the code by regenerating the fragments on every run and by running contextFromHeaders on a header grammar (all units, 1-20 digits, signs, spaces, non-ASCII, int64 boundaries per unit) and headersFromContext on log-uniform durations, both bracketed by clock reads, plus loopback end-to-end calls checked against the caller's deadline.",
+         "Trusted: Coq kernel; go2coq; the model of strconv.ParseInt/%d (lib/Dec.v, validated by the runs); clock readings make each comparison an interval. A value whose digits exceed int64 (>= 19 digits; the wire format allows 8) gives NO deadline: accepted as saturation (never earlier than asked), as fixed in DESIGN.md section 7/C09.",
+         "7/C09"),
  "C14": ("Coq theorems over tables regenerated from codes.go by a Go-AST translator + exhaustive differential/correspondence run",
          "Machine-checked proof (Coq 8.16): the code->HTTP and HTTP->code tables and the renderer guard are regenerated from /repo's source on every run and the theorems (documented table, error status for every non-OK code over all of Z, the 499 rule, recovery of every uint32 code through the %d/ParseInt/int32 round trip, OK iff 2xx for every integer status) are re-proved against them; the hand-written glue (header precedence) is tied to the code by running real server, real client and loopback end-to-end calls on all codes 0..40, boundary and random uint32 codes, and all HTTP statuses 100..599.",
          "Trusted: Coq kernel; the go2coq translator (differentially tested on every run against the real functions); the model of fmt %d / strconv.ParseInt (lib/Dec.v); net/http's handling of the status header on loopback is observed, not proved.",
